@@ -198,6 +198,8 @@ def verify_function(key, table, fields, monitor=None, timeout_ms=None, cex_fn=No
             res.status, res.message = "error", "precondition is not satisfiable (vacuous contract)"
             return res
         ex.heap0_ref = st.heap0
+        ex.never_written = tuple(getattr(con, "never_written", ()) or ())
+        ex.root_key, ex.root_props = key, con.props
         _targets = {}
         for m_ in con.modifies:
             if isinstance(m_, Field) and m_.obj is not None:
